@@ -18,7 +18,14 @@ Oracle (from the log and plain sqlite3 reads only) -- see vlib/c33_harness.judge
   * after flush(), after a query (auto-flush) and after commit() the tables read through the connection Pony uses equal
     the reference model (all writes of program and hooks so far, including objects created in hooks);
     after commit / rollback / session end the tables read through a separate connection equal the committed model.
-Relative order among different objects is not asserted.
+Relative order among different objects is not asserted.  What after_* hooks change is not required to be saved by the
+operation in which they ran (only by a later flush/commit); what before_* hooks change is.  After obj.flush() only the row
+of the flushed object is compared.
+
+Two Pony refusals that belong to other properties are counted as rejected (rate in the evidence), never as violations:
+a before_delete hook that reads a value which is not in memory gets UnrepeatableReadError "Phantom object X disappeared"
+(the hook notes it and goes on), and a collection load that meets its own unflushed m2m removal raises
+"Phantom object X appeared in collection Y" (the history stops there; the log up to that point is still judged).
 """
 import os, re, shutil
 
@@ -33,7 +40,9 @@ RULE = ('One case = hook table (4 classes x 6 hooks -> body in {nothing, read, r
         'every before-body x after-body pair per class] x 7 fixed scenario histories. Part 2 (hypothesis): random hook tables and '
         'histories. Non-trivial = at least one hook call performed a side effect (attribute write / object creation), or one '
         'object got two or more statements within one session, or a flush ran inside an after-hook; distinct by the sha1 of the '
-        'value-free trace (sequence of hook kind:class:effect and statement kind:table entries of the whole log).')
+        'value-free trace (sequence of hook kind:class:effect and statement kind:table entries of the whole log). Rejected = '
+        'history that met one of two Pony read refusals outside this property (UnrepeatableReadError phantom object '
+        'disappeared / appeared in collection); the part of the log before the refusal is still judged.')
 ASSUMPTIONS = ['SQLite 3 live through pony.orm.dbproviders.sqlite; statements observed with sqlite3.Connection/Cursor subclasses '
                '(bind kwarg factory=), so statements issued through other cursor types would be missed',
                'statement attribution parses the SQL text Pony generates for SQLite ("id" pk column, qmark parameters)',
@@ -256,7 +265,9 @@ MANIFEST = {
             'reference model of all program and hook writes after every flush and commit.',
     'note': 'Sampling beyond the grid; relative order of hooks of different objects is not asserted; histories are valid '
             '(no constraint failures, no exceptions in hooks), hooks never delete objects, one Database, SQLite only. '
-            'obj.flush() is checked for the hook/statement pairing only (objects a hook creates during obj.flush() are verified at '
-            'the next full flush/commit).',
+            'After obj.flush() the hook/statement pairing and the row of the flushed object are checked (objects its hooks '
+            'create or modify are verified at the next full flush/commit). Changes made by after_* hooks are only required '
+            'to be saved by a later operation. before_delete hooks that read meet a Pony read refusal for values not in '
+            'memory; such reads are counted as rejected.',
     'technique': 'bounded-exhaustive hook grid + hypothesis random histories; statement/hook log oracle + sqlite3 read-back against a reference model',
 }
